@@ -441,7 +441,14 @@ class Point(HyperbolicObject, projective.Point):
             towards `other`.
 
         """
-        diff = other.proj_data - self.proj_data
+        # the direction must not depend on which representative of
+        # `other` is stored: use the one on the same sheet of the
+        # hyperboloid as this point (negative Minkowski product)
+        products = utils.apply_bilinear(self.proj_data, other.proj_data,
+                                        self.minkowski)
+        same_sheet = np.where(np.expand_dims(products, axis=-1) > 0, -1, 1)
+
+        diff = same_sheet * other.proj_data - self.proj_data
         return TangentVector(self, diff).normalized()
 
     def get_origin(dimension, shape=(), **kwargs):
